@@ -40,6 +40,14 @@ func uriWalk(buf []byte, u *PsipURI) {
 	} else {
 		if u.User.Len > 0 {
 			vAssert("user-follows-scheme", int(u.User.Offs) == pos)
+			// ':' and '@' delimit user, password and host: a user containing
+			// one of them has swallowed (part of) another component
+			for i := int(u.User.Offs); i < pfEnd(u.User) && i < n; i++ {
+				vAssert("no-delimiter-inside-user", buf[i] != ':' && buf[i] != '@')
+			}
+			for i := int(u.Pass.Offs); i < pfEnd(u.Pass) && i < n; i++ {
+				vAssert("no-at-inside-password", buf[i] != '@')
+			}
 			pos = pfEnd(u.User)
 			if u.Pass.Len > 0 {
 				vAssert("colon-before-pass", buf[pos] == ':')
@@ -57,6 +65,9 @@ func uriWalk(buf []byte, u *PsipURI) {
 			vAssert("no-pass-without-user", u.Pass.Len == 0)
 		}
 		vAssert("host-follows", int(u.Host.Offs) == pos && u.Host.Len > 0)
+		for i := int(u.Host.Offs); i < pfEnd(u.Host) && i < n; i++ {
+			vAssert("no-at-inside-host", buf[i] != '@')
+		}
 		pos = pfEnd(u.Host)
 	}
 	if u.Port.Len > 0 {
